@@ -64,6 +64,9 @@ def byte_cases():
     cases.append(("undecodable-ascii-explicit", line1 + tails["utf8"], "ascii"))
     big = line1 + b"-- filler line\n" * 700 + tails["utf8"]
     cases.append(("utf8-late-nonascii-10k", big, None))
+    # one path, rewritten between runs in one process (an editor integration / API user): the verdict about a file must come from its current bytes
+    for k, t in enumerate(["ascii", "utf8", "ascii", "latin1", "utf8"]):
+        cases.append(("history@%d-%s-auto" % (k, t), line1 + tails[t], None if t != "latin1" else "latin-1"))
     cases.append(("nofix-utf8", b"SELECT a FROM t;\n" + tails["utf8"], "utf-8"))
     cases.append(("nofix-undecodable", b"SELECT a FROM t;\n" + tails["undecodable"], "utf-8"))
     return cases
@@ -74,7 +77,7 @@ def run_bytes(ctx):
     d = tempfile.mkdtemp(prefix="verif-c11-", dir=os.environ.get("TMPDIR") or "/var/tmp")
     try:
         for name, data, enc in byte_cases():
-            p = os.path.join(d, name + ".sql")
+            p = os.path.join(d, name.split("@")[0] + ".sql")
             with open(p, "wb") as f:
                 f.write(data)
             os.utime(p, (1000000000, 1000000000))
